@@ -45,7 +45,7 @@ type c11SrvResult struct {
 }
 
 func c11SpaceServer(c *fw.Ctx) {
-	c.Space("server", "real dns.Server (TsigSecret {k1,k3: A; k2: B}) on a scripted listener, handler answers through the real dns.Transfer.Out with n = 1..3 envelopes × 5 algorithms × 2 secrets: the query signed by the reference model gives TsigStatus() == nil and every written envelope verifies under the reference as a chain over the query MAC (first: full variables, following: timers only), with the unsigned part = Pack(reply); queries signed with another secret / unknown key / over a request MAC / in timers-only mode / unsigned, every single-bit flip and every truncation of the valid query: the handler must not see IsTsig() != nil ∧ TsigStatus() == nil unless the reference accepts, and then no reply may carry a TSIG; non-trivial: every case", true,
+	c.Space("server", "real dns.Server (TsigSecret {k1,k3: A; k2: B}) on a scripted listener, handler answers through the real dns.Transfer.Out with n = 1..3 envelopes × 5 algorithms × 2 secrets: the query signed by the reference model gives TsigStatus() == nil and every written envelope verifies under the reference as a chain over the query MAC (first: full variables, following: timers only), with the unsigned part = Pack(reply); a second, ordinary signed query on the same connection after the transfer is answered with a reply digested over its own MAC and the full variables; queries signed with another secret / unknown key / over a request MAC / in timers-only mode / unsigned, every single-bit flip and every truncation of the valid query: the handler must not see IsTsig() != nil ∧ TsigStatus() == nil unless the reference accepts, and then no reply may carry a TSIG; non-trivial: every case", true,
 		func(emit func(func(*fw.R))) {
 			for _, alg := range c11Algs {
 				for secret := 0; secret < 2; secret++ {
@@ -73,6 +73,17 @@ func c11Server(r *fw.R, alg string, secret, n int) {
 		res.called = true
 		res.hasTsig = req.IsTsig() != nil
 		res.status = w.TsigStatus()
+		if len(req.Question) == 1 && req.Question[0].Qtype == dns.TypeSOA {
+			// an ordinary query (the second one on a connection that has just carried a transfer): one reply,
+			// signed by the server when the query verified
+			m := new(dns.Msg)
+			m.SetReply(req)
+			if t := req.IsTsig(); t != nil && res.status == nil {
+				m.SetTsig(t.Hdr.Name, t.Algorithm, 300, time.Now().Unix())
+			}
+			w.WriteMsg(m)
+			return
+		}
 		tr := new(dns.Transfer)
 		ch := make(chan *dns.Envelope)
 		done := make(chan error)
@@ -95,15 +106,19 @@ func c11Server(r *fw.R, alg string, secret, n int) {
 	}()
 
 	// exchange sends one query on a fresh connection and waits until the server has closed it
-	exchange := func(query []byte) (*c11SrvResult, uint64) {
+	var exchangeN func(queries ...[]byte) (*c11SrvResult, uint64)
+	exchange := func(query []byte) (*c11SrvResult, uint64) { return exchangeN(query) }
+	exchangeN = func(queries ...[]byte) (*c11SrvResult, uint64) {
 		for {
 			res := &c11SrvResult{}
 			cur = res
 			st := &c11Stream{onClose: make(chan struct{})}
-			var lp [2]byte
-			binary.BigEndian.PutUint16(lp[:], uint16(len(query)))
-			st.in.Write(lp[:])
-			st.in.Write(query)
+			for _, query := range queries {
+				var lp [2]byte
+				binary.BigEndian.PutUint16(lp[:], uint16(len(query)))
+				st.in.Write(lp[:])
+				st.in.Write(query)
+			}
 			a := time.Now().Unix()
 			l.ch <- st
 			<-st.onClose
@@ -179,6 +194,30 @@ func c11Server(r *fw.R, alg string, secret, n int) {
 	}
 
 	check(good, "query signed by the reference", true)
+
+	// the same connection carries the transfer and then an ordinary signed query (RFC 8945 §5.3: every reply
+	// to a request is digested with the request MAC and the full TSIG variables): state of the transfer
+	// (timers-only mode, the last envelope's MAC) may not leak into the second exchange
+	{
+		q2 := new(dns.Msg)
+		q2.SetQuestion("example.", dns.TypeSOA)
+		q2.Id = 0x1235
+		q2body, _ := q2.Pack()
+		rec2 := rec
+		rec2.OrigID = 0x1235
+		good2, q2mac, _ := rt.Sign(q2body, rec2, raw[c11K1], nil, false)
+		res, now := exchangeN(good, good2)
+		switch {
+		case len(res.written) != n+1:
+			r.Fail("server/reuse/reply-count", "transfer (%d envelopes) then a signed SOA query on one connection: %d replies written, want %d; %s", n, len(res.written), n+1, ctx)
+		default:
+			last := res.written[n]
+			if ok, why := rt.Verify(last, lookup, q2mac, false, now); !ok {
+				alt, _ := rt.Verify(last, lookup, q2mac, true, now)
+				r.Fail("server/reuse/reply-mac", "the reply to a signed query that follows a transfer on the same connection does not verify over that query's MAC with the full variables (%s); it verifies in timers-only mode: %v; %s; reply %s", why, alt, ctx, c11Hex(last))
+			}
+		}
+	}
 	r.Sample(func() any { return fmt.Sprintf("%s: query %s (MAC %x)", ctx, c11Hex(good), qmac) })
 	signAs := func(rec rt.Rec, sec, req []byte, timers bool) []byte {
 		out, _, _ := rt.Sign(qbody, rec, sec, req, timers)
